@@ -89,7 +89,9 @@ stub_declaratortypes(struct scope *s, struct list *result, char **name, struct s
 #define PROD(a, b)      ((a) * (b))
 #define SZ(k)           (am_arr[k].size)
 /* a declarator none of the three diagnostics applies to: it must NOT be rejected (g_no_error) */
-#define LEN_OK(k, esz)  (!g_const[k] || (esz) == 0 || (!(g_signed[k] && (am_len[k].u.constant.u >> 63)) && am_len[k].u.constant.u <= ULLONG_MAX / (esz)))
+/* 6.7.6.2p1: a constant length shall be greater than zero (the first version of this unit only asked for non-negative; `int a[0]` was
+   then found by DECL.declaratortypes.arrzero, repaired in /repo, and this predicate follows the standard's text) */
+#define LEN_OK(k, esz)  (!g_const[k] || (esz) == 0 || (am_len[k].u.constant.u != 0 && !(g_signed[k] && (am_len[k].u.constant.u >> 63)) && am_len[k].u.constant.u <= ULLONG_MAX / (esz)))
 /* only for the one-derivation shape: for a[n][m] the outer guard divides by the size computed for the inner array, and
    restating that product in the precondition gives a second, syntactically different divider (no result in 200 s) */
 #define VALID           (V_N == 1 && !g_binc && g_bkind != TYPEFUNC && LEN_OK(INNER, am_base.size))
